@@ -392,7 +392,9 @@ PClose(s) ==
 \* pending.  Enabled only if the specification's kernel agrees that nothing can happen.
 Stuck(hasTimer) ==
   /\ ~ChildCanStep /\ ~ChildSleeping /\ ~hasTimer
-  /\ viol' = viol \cup {"C01_deadlock"}
+  /\ viol' = viol \cup {"C01_deadlock", "C02_exchange_never_completes"}
+                   \cup (IF limit >= 0 THEN {"C03_limited_exchange_never_completes"} ELSE {})
+                   \cup (IF dl # NoTime THEN {"C04_blocked_in_io_past_the_deadline"} ELSE {})
   /\ UNCHANGED <<piped, cap, k, short, input, flood, buf, pOpen, cOpen, cPend, cAlive, now, inCall, limit, dl,
                  sawEof, written, delivered, inAcc, cRecv, cEof, pwDone, after, noProg, sanity>>
 
